@@ -1,4 +1,5 @@
 import H2V.Lemmas.ConnCountsPCore
+import H2V.Lemmas.ConnCountsPClone
 /-
   C05 / C18 / C19 — part 6: `Ev` for `prioritize.rs` (`ConnSend.lean`, first half).
 -/
@@ -46,10 +47,16 @@ theorem sendOpen_not_early {st st' : State} {eos : Bool} {u : Unit} (h : st.send
   split at h <;> cases h <;> (try split) <;> simp
 theorem recvOpen_early {st st' : State} {a b : Bool} {r : Except PErr Bool} (h : st.recvOpen a b = (st', r)) :
     (st'.inner = .idle ∨ st'.inner = .reservedRemote) → (st.inner = .idle ∨ st.inner = .reservedRemote) := by
-  unfold State.recvOpen at h
   intro h'
-  split at h <;> cases h <;> simp_all
-  all_goals (repeat' split at h') <;> simp_all
+  have : st' = (st.recvOpen a b).1 := by rw [h]
+  subst this
+  obtain ⟨inner⟩ := st
+  cases inner with
+  | idle => left; rfl
+  | reservedRemote => right; rfl
+  | «open» l r => cases r <;> cases a <;> cases b <;> simp [State.recvOpen] at h'
+  | halfClosedLocal p => cases p <;> cases a <;> cases b <;> simp [State.recvOpen] at h'
+  | _ => simp [State.recvOpen] at h'
 theorem recvClose_early {st st' : State} {r : Except PErr Unit} (h : st.recvClose = (st', r)) :
     (st'.inner = .idle ∨ st'.inner = .reservedRemote) → (st.inner = .idle ∨ st.inner = .reservedRemote) := by
   unfold State.recvClose at h
@@ -99,6 +106,7 @@ macro "state_tac" : tactic => `(tactic| first
   | exact setState_same _ _ (recvEof_early _)
   | exact setState_same _ _ (fun h => absurd h (notEarly_of_closed rfl)))
 macro_rules | `(tactic| ev_side) => `(tactic| (intro _ _; state_tac))
+macro_rules | `(tactic| ev_side) => `(tactic| (show SFrame.isPP _ = false; rfl))
 macro_rules | `(tactic| ev_side) => `(tactic| (intro _ _; exact setPendingSend_same' _ _ (mem_append_single_pp rfl)))
 macro_rules | `(tactic| ev_side) => `(tactic| (intro _ _; exact setPendingSend_same _ [] _ _ (fun _ hf _ => nomatch hf)))
 
@@ -153,5 +161,145 @@ theorem reclaimReservedCapacity_ev (s : Streams) (id : Nat) : Ev s (s.reclaimRes
 theorem clearQueue_ev (s : Streams) (id : Nat) : Ev s (s.clearQueue id) := by
   unfold Streams.clearQueue
   ev_auto
+
+theorem clearPendingCapacity_ev : ∀ (fuel : Nat) (s : Streams), Ev s (Streams.clearPendingCapacity fuel s) := by
+  intro fuel
+  induction fuel with
+  | zero => intro s; exact .refl _
+  | succ n ih =>
+    intro s
+    unfold Streams.clearPendingCapacity
+    split
+    · next s' heq => exact .of_fst_eq heq (qPop_ev _ _ (by decide) (by decide))
+    · next s' id heq =>
+      have e0 : Ev s s' := .of_fst_eq heq (qPop_ev _ _ (by decide) (by decide))
+      exact .trans e0 (.trans (transitionAfter_after id (.refl _)) (ih _))
+
+theorem clearPendingOpen_ev : ∀ (fuel : Nat) (s : Streams), Ev s (Streams.clearPendingOpen fuel s) := by
+  intro fuel
+  induction fuel with
+  | zero => intro s; exact .refl _
+  | succ n ih =>
+    intro s
+    unfold Streams.clearPendingOpen
+    split
+    · next s' heq => exact .of_fst_eq heq .qPopOpen
+    · next s' id heq =>
+      have e0 : Ev s s' := .of_fst_eq heq .qPopOpen
+      exact .trans e0 (.trans (transitionAfter_after id (.refl _)) (ih _))
+
+theorem clearPendingSend_ev : ∀ (fuel : Nat) (s : Streams), Ev s (Streams.clearPendingSend fuel s) := by
+  intro fuel
+  induction fuel with
+  | zero => intro s; exact .refl _
+  | succ n ih =>
+    intro s
+    unfold Streams.clearPendingSend
+    split
+    · next s' heq => exact .of_fst_eq heq (qPop_ev _ _ (by decide) (by decide))
+    · next s' id heq =>
+      have e0 : Ev s s' := .of_fst_eq heq (qPop_ev _ _ (by decide) (by decide))
+      dsimp only
+      refine .trans e0 (.trans (transitionAfter_after id ?_) (ih _))
+      split
+      · exact modStreamW_ev _ _ _ (fun _ _ => setReset_same _ _ _)
+      · exact .refl _
+
+/-- what follows the `match stream.pending_send.pop_front(buffer)` in `pop_frame` -/
+theorem popFrame_finish {s' s2 : Streams} (id : Nat) (c : Prop) [Decidable c] (e : Ev s' s2) :
+    Ev s' ((if c then (s2.qPush .pendingSend id).1 else s2).transitionAfter id (s'.stream id).isPendingResetExpiration) := by
+  refine transitionAfter_after id (.trans e ?_)
+  split
+  · exact qPush_ev _ _ _ (by decide) (by decide)
+  · exact .refl _
+
+theorem popRest_same {s : Streams} {id : Nat} {x : SFrame} {rest : List SFrame} (h : (s.stream id).pendingSend = x :: rest) :
+    ∀ st, s.store.get? id = some st → Same st { st with pendingSend := rest } := by
+  intro st hst
+  refine setPendingSend_same' _ _ ?_
+  intro f hf _
+  rw [← stream_of_get? hst, h]; exact List.mem_cons_of_mem _ hf
+
+set_option hygiene false in
+/-- the part of `pop_frame`'s DATA arm that sends (a piece of) the frame -/
+local macro "pf_data_rest" : tactic => `(tactic|
+  (split
+   · exact ih _ _
+   · split
+     · exact ih _ _
+     · generalize hp : sd _ _ _ = p
+       obtain ⟨st', w, bad⟩ := p
+       dsimp only
+       refine popFrame_finish id _ ?_
+       have hsame : Same ((s'.modStream id fun st => { st with pendingSend := rest }).stream id) st' := by
+         have := hsd ((s'.modStream id fun st => { st with pendingSend := rest }).stream id)
+           (usizeAsU32 (min (min sz maxLen) (s'.stream id).sendFlow.available.asSize)) (s'.modStream id fun st => { st with pendingSend := rest }).prio.maxBufferSize
+         rw [hp] at this; exact this
+       have e1 : Ev s' (s'.modStream id fun st => { st with pendingSend := rest }) := modStream_ev _ _ _ (popRest_same hps)
+       have e2 := setStream_ev _ id st' hsame
+       refine .trans e1 (.trans e2 ?_)
+       ev_auto))
+
+/-- `pop_frame` with `Stream::send_data` abstracted (see `ConnCountsPClone.lean`) -/
+theorem popFrameC_ev (sd : Stream → Nat → Nat → Stream × List String × Bool) (hsd : ∀ x a b, Same x (sd x a b).1) :
+    ∀ (fuel : Nat) (s : Streams) (maxLen : Nat), Ev s (popFrameC sd fuel s maxLen).1 := by
+  intro fuel
+  induction fuel with
+  | zero => intro s _; rw [popFrameC_zero]; exact .refl _
+  | succ n ih =>
+    intro s maxLen
+    rw [popFrameC_succ]
+    split
+    · next s' heq => exact .of_fst_eq heq (qPop_ev _ _ (by decide) (by decide))
+    · next s' id heq =>
+      have e0 : Ev s s' := .of_fst_eq heq (qPop_ev _ _ (by decide) (by decide))
+      refine .trans e0 ?_
+      dsimp only
+      split
+      · -- DATA
+        next sz eos rest hps =>
+        split
+        · split
+          · refine .trans ?_ (ih _ _)
+            ev_auto
+          · pf_data_rest
+        · simp only [Bool.false_eq_true, if_false]
+          pf_data_rest
+      · next heos fields rest hps =>
+        exact popFrame_finish id _ (modStream_ev _ _ _ (popRest_same hps))
+      · next reason rest hps =>
+        exact popFrame_finish id _ (modStream_ev _ _ _ (popRest_same hps))
+      · next pk pid fields rest hps =>
+        split
+        · next hfind =>
+          refine .trans (popFrame_finish id _ (modStream_ev _ _ _ (popRest_same hps))) (ih _ _)
+        · next pushed hfind =>
+          refine popFrame_finish id _ ?_
+          refine .ppAct id pk pid fields rest pushed hps ?_
+          have : (s'.modStream id fun st => { st with pendingSend := rest }).store.ids = s'.store.ids := by
+            unfold Streams.modStream; split
+            · rfl
+            · rw [panic_store]
+          unfold Store.findKey? at hfind ⊢
+          rw [← this]; exact hfind
+      · next hps =>
+        split
+        · exact popFrame_finish id _ (modStreamW_ev _ _ _ (fun _ _ => setReset_same _ _ _))
+        · exact .trans (transitionAfter_after id (.refl _)) (ih _ _)
+
+theorem popFrame_ev (fuel : Nat) (s : Streams) (maxLen : Nat) : Ev s (Streams.popFrame fuel s maxLen).1 := by
+  rw [popFrameC.eq]; exact popFrameC_ev _ sendData_same fuel s maxLen
+
+theorem popPendingOpen_ev (s : Streams) : Ev s s.popPendingOpen.1 := by
+  unfold Streams.popPendingOpen
+  split
+  · next hc =>
+    have h := Ev.popOpen (s := s) hc
+    split
+    · next s' id heq =>
+      rw [heq] at h
+      exact .trans h (modStreamW_ev _ _ _ (fun _ _ => notifySend_same _))
+    · next s' heq => rw [heq] at h; exact h
+  · exact .refl _
 
 end H2V.Lemmas.ConnCountsP
